@@ -757,18 +757,24 @@ example : wavStreamCall (K := Rat) ⟨1, 2, 8000, [0, 0x80]⟩ [.file, .list 1] 
 /-- **C18.39** after `k` `next()` calls on a fresh stream the unread part of the data chunk is the
 data chunk minus `framesFor channels k` whole frames: one frame per sample (mono), one frame per two
 samples (otherwise; the second half waits in the generator) — so exactly `min (frames·fs) len` bytes
-were taken from the file, never a byte beyond the frame of the last sample handed out, for every
-file content, truncated or not.  (How many frames ONE `readframes` call takes is fixed to 1 by the code.) -/
+of the data chunk were taken, never a byte beyond the frame of the last sample handed out, for every
+file content, truncated or not; the only byte outside the data chunk that may be taken is the
+alignment byte of an odd-sized chunk, together with its last frame (`_Chunk.read`, observed on the
+real code: a mono 24-bit file with an odd number of frames).  (How many frames ONE `readframes` call takes is fixed to 1 by the code.) -/
 theorem wav_reads_only_needed_bytes (channels sw fs : Nat) (data : Bytes) (k : Nat) :
     let r := wavTake channels sw fs k ⟨data, [], false⟩
     r.2.data = data.drop (framesFor channels k * fs)
-      ∧ data.length - r.2.data.length = bytesRead channels fs data k := by
+      ∧ data.length - r.2.data.length = bytesRead channels fs data k
+      ∧ bytesRead channels fs data k + alignByte channels fs data k ≤ data.length + data.length % 2
+      ∧ (bytesRead channels fs data k < data.length → alignByte channels fs data k = 0) := by
   have h := wavTake_data channels sw fs k ⟨data, [], false⟩ (by simp)
   have hf : framesFrom channels k 0 = framesFor channels k := rfl
   simp only [List.length_nil, hf] at h
-  refine ⟨h, ?_⟩
-  simp only [h, List.length_drop, bytesRead]
-  omega
+  refine ⟨h, ?_, ?_, ?_⟩
+  · simp only [h, List.length_drop, bytesRead]
+    omega
+  · unfold alignByte; split <;> simp only [bytesRead] <;> omega
+  · intro hlt; unfold alignByte; rw [if_neg (by omega)]
 
 example : (wavTake 2 2 4 3 ⟨[1, 0, 2, 0, 3, 0, 4, 0, 5, 0, 6, 0], [], false⟩).2.data = [5, 0, 6, 0]
     ∧ bytesRead 2 4 [1, 0, 2, 0, 3, 0, 4, 0, 5, 0, 6, 0] 3 = 8 := by decide
